@@ -265,6 +265,14 @@ def family_special(rnd, tier):
             out.append(sc)
             sc = SC("spec-mode-sole-%o-%o" % (mode, um), [E("p", "fifo", m=mode)], ["p"], "d", r=False, cls="special"); sc["umask"] = um
             out.append(sc)
+    # re-copy over an earlier copy: the same kind of node is already there, with other permission bits
+    for um in (0, 0o022):
+        fs = [E("s", "dir"), E("s/p", "fifo", m=0o666), E("s/c", "chr", "1:3", m=0o660), E("s/so", "sock", m=0o777), E("s/f", "file", "F1"),
+              E("d", "dir"), E("d/p", "fifo", m=0o600), E("d/c", "chr", "1:3", m=0o600), E("d/so", "sock", m=0o700), E("d/f", "file", "G1")]
+        sc = SC("spec-recopy-samekind-%o" % um, fs, ["s"], "d", T=True, cls="special"); sc["umask"] = um
+        out.append(sc)
+        sc = SC("spec-recopy-sole-fifo-%o" % um, [E("p", "fifo", m=0o644), E("d", "fifo", m=0o600)], ["p"], "d", r=False, cls="special"); sc["umask"] = um
+        out.append(sc)
     out.append(SC("spec-blk-sole", [E("bd", "blk", "7:0")], ["bd"], "d", r=False, cls="special"))
     out.append(SC("spec-blk-tree", tree("s", {"a": "F1", "bd": ("blk", 7, 1), "z": "F2"}), ["s"], "d", cls="special"))
     return out
